@@ -348,6 +348,9 @@ func (fv *FuncVerifier) frameWrite(st *State, h, ref, lo, hi, text string, cond 
 		return
 	}
 	goal := "(>= " + ref + " " + fv.alloc0 + ")"
+	if lo != "" && hi != "" {
+		goal = or(goal, "(>= "+lo+" "+hi+")") // empty region
+	}
 	for _, m := range fv.mods {
 		if m.heap != h {
 			continue
@@ -591,9 +594,19 @@ func (fv *FuncVerifier) callUnknown(st *State, e *ast.CallExpr, recv *Val, what 
 		}
 	}
 	fv.havocHeaps(st, hs, all)
+	if all {
+		for _, g := range fv.eng.contracts.GhostOrder {
+			kind := fv.eng.contracts.GhostVars[g]
+			st.ghost[g] = Val{T: fv.fresh("gv_"+g, ghostSort(kind)), Sort: ghostSort(kind)}
+		}
+	}
 	var out []Val
 	for i, rt := range rts {
-		out = append(out, fv.havocVal(st, fmt.Sprintf("ret%d", i), rt))
+		v := fv.havocVal(st, fmt.Sprintf("ret%d", i), rt)
+		for _, r := range fv.refTerms(v.T, rt, 0) {
+			fv.assume(st, "(< "+r+" "+st.alloc+")")
+		}
+		out = append(out, v)
 	}
 	return out
 }
@@ -823,11 +836,23 @@ func (fv *FuncVerifier) callContract(st *State, e *ast.CallExpr, fn *types.Func,
 			fv.heapClosure(h, st.heaps[h], na)
 		}
 	}
+	// ghost variables the callee may update
+	for _, g := range c.Updates {
+		kind, ok := fv.eng.contracts.GhostVars[g]
+		if !ok {
+			fv.unsupported("updates of undeclared ghost variable " + g)
+			continue
+		}
+		st.ghost[g] = Val{T: fv.fresh("gv_"+g, ghostSort(kind)), Sort: ghostSort(kind)}
+	}
 	// results
 	extra := map[string]Val{}
 	var out []Val
 	for i, rt := range rts {
 		v := fv.havocVal(st, fmt.Sprintf("%s_r%d", fn.Name(), i), rt)
+		for _, r := range fv.refTerms(v.T, rt, 0) {
+			fv.assume(st, "(< "+r+" "+st.alloc+")")
+		}
 		out = append(out, v)
 		extra[fmt.Sprintf("result%d", i)] = v
 		if i == 0 {
@@ -841,6 +866,8 @@ func (fv *FuncVerifier) callContract(st *State, e *ast.CallExpr, fn *types.Func,
 	}
 	for _, gr := range c.GhostRet {
 		extra[gr.Name] = Val{T: fv.fresh("gret_"+gr.Name, ghostSort(gr.Kind)), Sort: ghostSort(gr.Kind)}
+		// witnesses of the most recent call are visible to the caller's own specs under the callee's name
+		st.ghost[gr.Name] = extra[gr.Name]
 	}
 	for _, en := range c.Ensures {
 		if !ghostOK && mentionsGhost(en) {
